@@ -11,7 +11,7 @@ import numpy as np
 from . import common
 
 PROP = "C16"
-MODULES = ["PdsVerif.Props.StdArithTie", "PdsVerif.Props.C16", "PdsVerif.Lemmas.StandardizeView", "PdsVerif.Lemmas.StandardizeBasic"]
+MODULES = ["PdsVerif.Props.StdArithTie", "PdsVerif.Props.StatsValidTie", "PdsVerif.Props.C16", "PdsVerif.Lemmas.StandardizeView", "PdsVerif.Lemmas.StandardizeBasic"]
 MODEL_MODULES = ["PdsVerif.Model.Standardize", "PdsVerif.Model.StandardizeDrv"]
 REQUIRED = [
     "PdsVerif.C16." + n
@@ -26,13 +26,16 @@ REQUIRED = [
 ] + [
     "PdsVerif.StdArithTie." + n
     for n in "accVec_fields accTensor_fields means_eq varOf_eq scales_eq affine_eq affine_get local_mean_eq".split()
-]
+] + ["PdsVerif.StatsValidTie.valid_eq_gen"]
 
 
 def translate(repo):
     """element-wise statements of Standardize (post.py) -> Generated/StdArith.lean (theorems: Props/StdArithTie.lean)"""
-    from .translate import standardize
-    return standardize.generate(repo)
+    from .translate import standardize, statsvalid
+    files = dict(standardize.generate(repo))
+    # which flat arrays are accepted as given statistics -> Generated/StatsValid.lean (Props/StatsValidTie.lean)
+    files.update(statsvalid.generate(repo))
+    return files
 
 RULE = (
     "a case is (data set of N<=40 feature vectors of dimension F<=6; two independent histories over it = random "
